@@ -60,7 +60,9 @@ def variants(tier):
 
 def scratch_dir():
     root = os.environ.get("VERIF_SCRATCH") or ("/dev/shm" if os.path.isdir("/dev/shm") else None)
-    return tempfile.mkdtemp(prefix="c14-", dir=root)
+    from hv.core import case_dir
+
+    return case_dir("c14", root)
 
 
 @st.composite
